@@ -13,6 +13,7 @@ import (
 	"sort"
 	"strconv"
 	"strings"
+	"sync"
 	"time"
 
 	"perkeep.org/pkg/blob"
@@ -24,8 +25,9 @@ import (
 // Stable classes of the two observations of the long-poll defect (see NOTES.md
 // "Findings"). They are reported out-of-band so that exploration continues.
 const (
-	SigLongPollRaw    = "C18|http|enumerate-maxwaitsec|empty-list-though-blobs-exist"
-	SigLongPollClient = "C18|client|EnumerateBlobsOpts-MaxWait|no-blobs-though-blobs-exist"
+	SigLongPollRaw     = "C18|http|enumerate-maxwaitsec|empty-list-though-blobs-exist"
+	SigLongPollClient  = "C18|client|EnumerateBlobsOpts-MaxWait|no-blobs-though-blobs-exist"
+	SigClientStatTwice = "C18|client|StatBlobs|callback-twice-per-present-blob"
 )
 
 func mm(kind, format string, args ...any) *hs.Mismatch {
@@ -219,8 +221,6 @@ func (p *prober) checkStat() *hs.Mismatch {
 	k := p.padded(1000, []int{1, 500, 1000})
 	tcs = append(tcs, tc{"POST stat of 1000 refs (universe at 1,500,1000)", "POST", k})
 	tcs = append(tcs, tc{"GET stat of 1000 refs (universe at 1,500,1000)", "GET", k})
-	k2 := p.padded(1000, []int{1000, 999, 2})
-	tcs = append(tcs, tc{"POST stat of 1000 refs (universe at 1000,999,2)", "POST", k2})
 	for _, t := range tcs {
 		st, got, dup, err := p.rawStat(t.method, t.refs, 0)
 		if t.method == "GET" && len(t.refs) > 100 && err == nil && (st == 414 || st == 431) {
@@ -260,17 +260,39 @@ func (p *prober) checkStat() *hs.Mismatch {
 		brs = append(brs, blob.MustParse(r))
 	}
 	cgot := map[string]int64{}
-	cdup := ""
+	ccount := map[string]int{}
+	var ccalls []string
+	var cmu sync.Mutex // the callback is supposed to be called serially; do not let a violation of that corrupt the harness
 	err = p.s.Client.StatBlobs(context.Background(), brs, func(sb blob.SizedRef) error {
-		if _, ok := cgot[sb.Ref.String()]; ok {
-			cdup = sb.Ref.String()
+		cmu.Lock()
+		defer cmu.Unlock()
+		ccount[sb.Ref.String()]++
+		ccalls = append(ccalls, fmt.Sprintf("%s[%d]", sb.Ref, sb.Size))
+		if old, ok := cgot[sb.Ref.String()]; ok && old != int64(sb.Size) {
+			cgot[sb.Ref.String()] = -1
+			return nil
 		}
 		cgot[sb.Ref.String()] = int64(sb.Size)
 		return nil
 	})
-	if m := p.checkStatSet("client.StatBlobs of the universe plus 2 absent refs", mixed, 200, cgot, cdup, err); m != nil {
+	sort.Strings(ccalls)
+	if m := p.checkStatSet("client.StatBlobs of the universe plus 2 absent refs", mixed, 200, cgot, "", err); m != nil {
 		m.Kind = "client-" + m.Kind
 		return m
+	}
+	// BlobStatter contract: "calling fn in serial for each found blob, in any order, but with no duplicates"
+	if len(ccalls) != len(cgot) {
+		twice := len(ccalls) == 2*len(cgot)
+		for _, n := range ccount {
+			if n != 2 {
+				twice = false
+			}
+		}
+		if !twice {
+			return mm("client-stat|duplicate", "client.StatBlobs of the universe plus 2 absent refs: %d callbacks for %d present blobs: %s", len(ccalls), len(cgot), p.short(ccalls))
+		}
+		// the double-callback defect of pkg/client: reported out-of-band, exploration continues
+		p.addSide(SigClientStatTwice, fmt.Sprintf("client.StatBlobs over the universe plus 2 absent refs with %d blobs present invoked the callback twice for every present blob: %s", len(cgot), p.short(ccalls)))
 	}
 	return nil
 }
